@@ -21,6 +21,7 @@ import (
 	"path/filepath"
 	"regexp"
 	"sort"
+	"strconv"
 	"strings"
 
 	"github.com/openconfig/goyang/pkg/yang"
@@ -499,6 +500,117 @@ func bindTemplates(tpl []tplSection, gc GenCorpus, goFile, pathFile string, prop
 			report = append(report, fmt.Sprintf("%s.%s (enumtype)", gc.Pkg, en))
 		}
 	}
+	// PopulateDefaults: one instance per struct with that method. The defaulted leaves and their values come from
+	// the YANG schema (goyang), not from the generator; supported default kinds: string, integer, boolean and
+	// enumeration / identityref (checked through the generated value table); other leaves only get "kept".
+	var defStructs []string
+	for _, d := range f.Decls {
+		fd, ok := d.(*ast.FuncDecl)
+		if !ok || fd.Name.Name != "PopulateDefaults" || fd.Recv == nil || len(fd.Recv.List) != 1 {
+			continue
+		}
+		if se, ok := fd.Recv.List[0].Type.(*ast.StarExpr); ok {
+			if id, ok := se.X.(*ast.Ident); ok && structs[id.Name] != nil {
+				defStructs = append(defStructs, id.Name)
+			}
+		}
+	}
+	sort.Strings(defStructs)
+	pathTagRe := regexp.MustCompile(`path:"([^"]*)"`)
+	for _, S := range defStructs {
+		var ent *yang.Entry
+		if m := docPathRe.FindStringSubmatch(docs[S]); m != nil {
+			ent = lookup(m[1])
+		}
+		var set, kept, covered, uncovered []string
+		for _, fl := range structs[S].Fields.List {
+			if len(fl.Names) != 1 || fl.Tag == nil || strings.HasPrefix(fl.Names[0].Name, "Λ") {
+				continue
+			}
+			L := fl.Names[0].Name
+			tm := pathTagRe.FindStringSubmatch(fl.Tag.Value)
+			if tm == nil {
+				continue
+			}
+			var le *yang.Entry
+			if ent != nil {
+				le = walkEntry(ent, strings.Split(strings.Split(tm[1], "|")[0], "/"))
+			}
+			def, hasDef := "", false
+			if le != nil && (le.IsLeaf() || le.IsLeafList()) {
+				if dv := le.DefaultValues(); len(dv) == 1 && le.IsLeaf() {
+					def, hasDef = dv[0], true
+				} else if len(dv) > 0 {
+					uncovered = append(uncovered, L+" (leaf-list default)")
+				}
+			}
+			ts := exprStr(fl.Type)
+			switch {
+			case strings.HasPrefix(ts, "*") && isBasicGoType(ts[1:]):
+				bt := ts[1:]
+				if bt == "float64" {
+					// (the value is compared for the other types; for float64 `==` would fail on an untouched NaN)
+					kept = append(kept, fmt.Sprintf("(old(X.%s) != nil ==> X.%s == old(X.%s))", L, L, L))
+				} else {
+					kept = append(kept, fmt.Sprintf("(old(X.%s) != nil ==> X.%s == old(X.%s) && *X.%s == old(*X.%s))", L, L, L, L, L))
+				}
+				if !hasDef {
+					kept = append(kept, fmt.Sprintf("(old(X.%s) == nil ==> X.%s == nil)", L, L))
+					continue
+				}
+				lit, ok := goLiteralForDefault(bt, def)
+				if !ok {
+					uncovered = append(uncovered, L+" (default "+def+" of type "+bt+")")
+					continue
+				}
+				set = append(set, fmt.Sprintf("(old(X.%s) == nil ==> X.%s != nil && *X.%s == %s)", L, L, L, lit))
+				covered = append(covered, L+"="+def)
+			case strings.HasPrefix(ts, "E_"):
+				kept = append(kept, fmt.Sprintf("(old(X.%s) != 0 ==> X.%s == old(X.%s))", L, L, L))
+				if !hasDef {
+					kept = append(kept, fmt.Sprintf("(old(X.%s) == 0 ==> X.%s == 0)", L, L))
+					continue
+				}
+				name := def
+				if i := strings.LastIndex(name, ":"); i >= 0 {
+					name = name[i+1:]
+				}
+				set = append(set, fmt.Sprintf("(old(X.%s) == 0 ==> in(int64(X.%s), ΛEnum[%q]) && ΛEnum[%q][int64(X.%s)].Name == %q)", L, L, ts, ts, L, name))
+				covered = append(covered, L+"="+def)
+			case strings.HasPrefix(ts, "*") || strings.HasPrefix(ts, "map[") || strings.HasSuffix(ts, "_OrderedMap"):
+				// containers and lists: not leaves
+			default:
+				if hasDef {
+					uncovered = append(uncovered, L+" (default of type "+ts+")")
+				}
+			}
+		}
+		if len(set) == 0 {
+			set = []string{"true"}
+		}
+		if len(kept) == 0 {
+			kept = []string{"true"}
+		}
+		n := 0
+		for _, s := range tpl {
+			if s.Kind != "defaults" {
+				continue
+			}
+			for _, l := range s.Lines {
+				l = expandX(l, "$DEFAULTSSET", strings.Join(set, " && "))
+				l = expandX(l, "$LEAVESKEPT", strings.Join(kept, " && "))
+				out.WriteString(strings.ReplaceAll(l, "$S", S) + "\n")
+			}
+			n++
+		}
+		if n > 0 {
+			lab := fmt.Sprintf("%s.(*%s).PopulateDefaults (defaults: %s)", gc.Pkg, S, strings.Join(covered, ", "))
+			if len(uncovered) > 0 {
+				lab += " NOT COVERED: " + strings.Join(uncovered, ", ")
+			}
+			report = append(report, lab)
+		}
+	}
 	// path-struct accessors (ypathgen): one instance per child accessor method of a path struct whose GoStruct and
 	// field are found; the expected relative path is the first alternative of that field's `path` tag, the expected
 	// keys are the list's key leaves (a key without a parameter of its Go name is a wildcard)
@@ -579,20 +691,7 @@ func bindTemplates(tpl []tplSection, gc GenCorpus, goFile, pathFile string, prop
 				}
 				keys = "(forall s string :: in(s, X) == (" + strings.Join(dom, " || ") + ")) && " + strings.Join(vals, " && ")
 			}
-			macro := func(l, name, body string) string {
-				for {
-					i := strings.Index(l, name+"(")
-					if i < 0 {
-						return l
-					}
-					e := matchParen(l, i+len(name))
-					if e < 0 {
-						return l
-					}
-					arg := l[i+len(name)+1 : e]
-					l = l[:i] + "(" + placeholderX.ReplaceAllLiteralString(body, arg) + ")" + l[e+1:]
-				}
-			}
+			macro := expandX
 			n := 0
 			for _, s := range tpl {
 				if s.Kind != "pathaccessor" {
@@ -790,4 +889,50 @@ func (in *listInst) subst(l string) string {
 	}
 	r := strings.NewReplacer("$KEYARGS", keyArgs, "$OM", in.OM, "$K", in.K, "$V", in.V, "$P", in.Parent, "$F", in.Field)
 	return r.Replace(l)
+}
+
+// expandX replaces every `name(arg)` in l by body with the placeholder X replaced by arg.
+func expandX(l, name, body string) string {
+	for {
+		i := strings.Index(l, name+"(")
+		if i < 0 {
+			return l
+		}
+		e := matchParen(l, i+len(name))
+		if e < 0 {
+			return l
+		}
+		arg := l[i+len(name)+1 : e]
+		l = l[:i] + "(" + placeholderX.ReplaceAllLiteralString(body, arg) + ")" + l[e+1:]
+	}
+}
+
+func isBasicGoType(t string) bool {
+	switch t {
+	case "string", "bool", "int8", "int16", "int32", "int64", "uint8", "uint16", "uint32", "uint64", "float64":
+		return true
+	}
+	return false
+}
+
+// goLiteralForDefault: the Go literal denoting a YANG default value of a string / boolean / integer leaf.
+func goLiteralForDefault(goType, def string) (string, bool) {
+	switch goType {
+	case "string":
+		return strconv.Quote(def), true
+	case "bool":
+		if def == "true" || def == "false" {
+			return def, true
+		}
+		return "", false
+	case "float64":
+		return "", false
+	}
+	if _, err := strconv.ParseInt(def, 10, 64); err == nil {
+		return def, true
+	}
+	if _, err := strconv.ParseUint(def, 10, 64); err == nil {
+		return def, true
+	}
+	return "", false
 }
